@@ -11,8 +11,8 @@ hprop.install(globals(), hprop.HistoryProperty(
     nontrivial=lambda f: {"queue_of_three", "grant_from_queue"} <= f,
     rule=("stateful histories over generated worlds with 1-2 stations of one plug per type and 4-9 vehicles (a third of them with human drivers whose shifts flip while they queue) starting at 90-99 % charge "
           "(sessions end by themselves) or at 3-6 % (they run flat while they wait), vehicle ids whose lexical order differs from arrival order; vehicles are sent to the same plug "
-          "at staggered and identical times, abandon the queue, are pulled off the plug; whenever a vehicle goes queue -> plug without "
-          "an instruction of its own in that step, no other vehicle still waiting for that plug (and able to use it) may have a smaller "
+          "at staggered and identical times, plugs are throttled (0 / 0.1 % / 25 % / 50 % / 100 % of the factory rate), abandon the queue, are pulled off the plug; whenever a vehicle goes queue -> plug without "
+          "an instruction of its own in that step, no other vehicle still waiting for that plug (and able to use it: the plug's energy type is one the vehicle stores) may have a smaller "
           "(enqueue time, id). non-trivial = a queue of >=3 for one plug AND >=1 grant from the queue; distinct = sha1(world, op log)"),
     assumptions=hprop.COMMON_ASSUMPTIONS + ["a grant caused by an instruction naming the granted vehicle in that step is the controller's choice, not the queue's, and is not judged"],
     quick=(16, 200, 45), thorough=(16, 2000, 70),
